@@ -327,6 +327,14 @@ def compare_call(S, scn, ci, c, m):
         return corr, orc, st
     mr = m["randsets"]
     ir = c["obs"]
+    # ---- whole-call oracle, independent of how the implementation partitioned the statements: the statements
+    # that are active per the model (= Spec) form rand sets; if every one of them is satisfiable (decided by
+    # exhaustive enumeration of the reference semantics) the call must not fail
+    if c["outcome"] == "solveFailure" and mr and all(a["specSat"] is True for a in mr):
+        of("solvefailure-but-satisfiable", {"randsets": [a["fields"] for a in mr]}, "a satisfiable system never fails")
+    if c["outcome"] == "ok" and any(a["specSat"] is False for a in mr):
+        of("returned-but-unsatisfiable", {"randsets": [a["fields"] for a in mr if a["specSat"] is False]},
+           "SolveFailure (no assignment satisfies the hard constraints)")
     # ---- rand sets
     if [x["fields"] for x in mr] != [x["rs"]["fields"] for x in ir]:
         cf("randsets.fields", [x["fields"] for x in mr], [x["rs"]["fields"] for x in ir])
